@@ -74,6 +74,8 @@ Section WithEnv.
     (map (fun h => (h_id h, old, new)) cs,
      map (fun h => (h_id h, old, new)) (filter h_raises cs)).
 
+  (* new_value = (flags & TRAIT_SETATTR_ORIGINAL_VALUE) ? original_value : value  (setattr_trait l.2487) *)
+  Definition new_value (v w : val) : val := if e_store_original E then v else w.
   Definition readable (s : option val) : val := match s with Some v => v | None => e_default E end.
   Definition is_nil {A} (l : list A) : bool := match l with [] => true | _ => false end.
 
@@ -119,7 +121,7 @@ Section WithEnv.
                 let '(cs, sk) := notify OUndefined w in (s, mkObs Ok s cs sk)
             | TNormal m =>
                 (* new_value = (flags & TRAIT_SETATTR_ORIGINAL_VALUE) ? original_value : value  (l.2487) *)
-                let nv := if e_store_original E then v else w in
+                let nv := new_value v w in
                 if is_nil (e_handlers E) then (Some nv, mkObs Ok (Some nv) [] [])     (* do_notifiers = 0 *)
                 else
                   let old := readable s in             (* dict value, or the default materialised as `old` *)
